@@ -43,7 +43,17 @@ def _run(case):
     try:
         signal.alarm(timeout)
         try:
-            if isinstance(case, dict) and case.get("via"):
+            if isinstance(case, dict) and case.get("warm"):
+                # same case, every algorithm object used before on related inputs (bounded/algs.py: warm)
+                from bounded import algs
+                with algs.warm():
+                    res = _MOD.check_case(case)
+                for f in res.get("fails", []):
+                    f["site"] = "%s [algorithm object used before: warm-up calls of bounded/algs.py]" % f.get("site")
+                if res.get("key") is not None:
+                    res["key"] = "%s|warm" % res["key"]
+                res["nkeys"] = 0
+            elif isinstance(case, dict) and case.get("via"):
                 # same case, every dataset reached through a history (built larger, then cut down by a public mutator)
                 from bounded import adapt as A
                 with A.via(case["via"]):
@@ -86,6 +96,19 @@ def _with_histories(cases, every):
             yield c2
 
 
+def _with_warm(cases, every):
+    """after every `every`-th plain case, the same case again with every algorithm object used before (algs.warm)"""
+    i = 0
+    for c in cases:
+        yield c
+        if isinstance(c, dict) and "via" not in c and "warm" not in c:
+            if i % every == 1 % every:
+                c2 = dict(c)
+                c2["warm"] = True
+                yield c2
+            i += 1
+
+
 def main():
     ap = argparse.ArgumentParser()
     ap.add_argument("prop")
@@ -110,6 +133,9 @@ def main():
             every = getattr(mod, "VIA_EVERY", {}).get(a.tier)
             if every:
                 cases = _with_histories(cases, every)
+            wevery = getattr(mod, "WARM_EVERY", {}).get(a.tier)
+            if wevery:
+                cases = _with_warm(cases, wevery)
         keys = set()
         extra_keys = 0
         any_samples = []
